@@ -16,7 +16,7 @@ From CB Require Import Model.Limbs Model.AddSub Model.Mul Model.Div Model.Bits M
   Model.IntDiv Model.Conv Model.Rand Model.Sqrt
   Proofs.WordP Proofs.LimbsP Proofs.MulApiP Proofs.TotalityP Proofs.TotalityAddSubP Proofs.TotalityMulP Proofs.TotalityDivP
   Proofs.TotalityBitsP Proofs.TotalityCmpP Proofs.TotalityModArithP Proofs.TotalityIntP Proofs.TotalityConvP
-  Proofs.TotalityRandP Proofs.TotalitySqrtP.
+  Proofs.TotalityRandP Proofs.TotalitySqrtP Proofs.DivP Proofs.AddSubP Proofs.TotalityDivAssertP Proofs.TotalityChoiceP.
 From Coq Require Import ZArith List String.
 Open Scope Z_scope. Open Scope string_scope.
 Notation length := List.length.
@@ -180,6 +180,72 @@ Theorem C11_div_nonzero_divisor_never_panics : forall k dbg a, In k div_divisor_
   wf_args a -> typed div_nz_ty k a -> eval (arg 1 a) <> 0 -> run_tab ops_div_model k dbg a <> PanicV.
 Proof. exact div_nonzero_divisor_never_panics. Qed.
 Print Assumptions C11_div_nonzero_divisor_never_panics.
+
+(** src/uint/div_limb.rs:125-126, 140: the three debug assertions of div2by1 (written as a boolean function of the values
+    the model computes: d >= 2^63, u1 < d, and `r < d || q1 < Word::MAX` between the two masked corrections) hold for every
+    call that satisfies the documented precondition *)
+Theorem C11_div2by1_asserts_hold : forall u1 u0 rc,
+  is_word u0 -> 0 <= u1 < r_d rc -> normalized (r_d rc) -> recip_ok (r_d rc) (r_v rc) ->
+  div2by1_dbg_asserts u1 u0 rc = true.
+Proof. exact div2by1_asserts_hold. Qed.
+Print Assumptions C11_div2by1_asserts_hold.
+
+(** src/uint/div_limb.rs:161-162 and the masked select below them: div3by2's own assertions and those of the inner
+    div2by1 on `select(u2, 0, u2 == d)` hold on both sides of the select (u2 < d and u2 = d) *)
+Theorem C11_div3by2_asserts_hold : forall u2 u1 u0 rc v0,
+  normalized (r_d rc) -> recip_ok (r_d rc) (r_v rc) -> r_shift rc = 0 -> is_word u1 -> 0 <= u2 <= r_d rc ->
+  div3by2_dbg_asserts u2 u1 u0 rc v0 = true.
+Proof. exact div3by2_asserts_hold. Qed.
+Print Assumptions C11_div3by2_asserts_hold.
+
+(** every iteration of the division by one limb (Uint / BoxedUint div_rem_limb, rem_limb, div_limb; Reciprocal::new of
+    any non-zero limb, any dividend): the running remainder stays below the normalised divisor *)
+Theorem C11_div_rem_limb_asserts_hold : forall u d, wf u -> 0 < d < B ->
+  let rc := recip_new d in
+  let '(us, uhi) := shl_limb u (r_shift rc) in divlimb_go_asserts (rev us) uhi rc = true.
+Proof. exact div_rem_limb_asserts_hold. Qed.
+Print Assumptions C11_div_rem_limb_asserts_hold.
+
+(** src/uint/div.rs:113-121, the discarded-branch protection of Uint::div_rem: on the branch whose result is thrown away
+    the final div2by1 runs on select(0, x_hi, false) = 0 and its assertions hold whatever x_hi is; without the select they
+    can fail (x_hi = MAX, d = 2^63) *)
+Theorem C11_div_rem_discarded_branch_asserts_hold : forall x_hi x_lo rc,
+  normalized (r_d rc) -> recip_ok (r_d rc) (r_v rc) -> is_word x_lo ->
+  div2by1_dbg_asserts (sel false 0 x_hi) x_lo rc = true.
+Proof. exact div_rem_discarded_branch_asserts_hold. Qed.
+Print Assumptions C11_div_rem_discarded_branch_asserts_hold.
+
+Theorem C11_div_rem_unprotected_would_fire : exists x_hi x_lo rc,
+  normalized (r_d rc) /\ recip_ok (r_d rc) (r_v rc) /\ is_word x_lo /\ is_word x_hi /\
+  div2by1_dbg_asserts x_hi x_lo rc = false.
+Proof. exact div_rem_unprotected_would_fire. Qed.
+Print Assumptions C11_div_rem_unprotected_would_fire.
+
+(** src/const_choice.rs:40 (`from_word_mask` expects 0 or Word::MAX): the value handed to it is always the borrow of a
+    subtraction chain *)
+Theorem C11_from_word_mask_assert_holds :
+  (forall a b bw, is_word a -> is_word b -> is_word bw -> mask_ok (snd (sbb a b bw))) /\
+  (forall a b, wf a -> wf b -> length a = length b -> mask_ok (snd (sbb_limbs a b 0))).
+Proof. exact (conj mask_of_sbb_word mask_of_sbb_limbs). Qed.
+Print Assumptions C11_from_word_mask_assert_holds.
+
+(** src/const_choice.rs:48, 63 (`from_word_lsb` / `from_u32_lsb` expect 0 or 1): the values handed to them by
+    from_word_msb / nonzero / eq / lt / le (the top bit of a word), by saturating_add and carrying_neg (the carry of a
+    chain), by the u32 predicates (the top bit of a u32) and by the shift ladder (a masked bit) *)
+Theorem C11_from_lsb_assert_holds :
+  (forall x y, is_word x -> is_word y ->
+     lsb_ok (x / 2 ^ 63) /\ lsb_ok (wor x (wneg x) / 2 ^ 63) /\
+     lsb_ok (wor (wxor x y) (wneg (wxor x y)) / 2 ^ 63) /\
+     lsb_ok (wor (wand (wnot x) y) (wand (wor (wnot x) y) (wsub x y)) / 2 ^ 63) /\
+     lsb_ok (wand (wor (wnot x) y) (wor (wxor x y) (wnot (wsub y x))) / 2 ^ 63)) /\
+  (forall a b, wf a -> wf b -> length a = length b -> lsb_ok (snd (adc_limbs a b 0))) /\
+  (forall a, wf a -> lsb_ok (snd (neg_limbs a 1))) /\
+  (forall v, 0 <= v < U32 -> lsb_ok (v / 2 ^ 31)) /\
+  (forall shift i, lsb_ok (Z.land (shift / 2 ^ i) 1)).
+Proof.
+  exact (conj lsb_args_of_predicates (conj lsb_of_adc_carry (conj lsb_of_neg_carry (conj lsb_of_u32_top_bit lsb_of_ladder_bit)))).
+Qed.
+Print Assumptions C11_from_lsb_assert_holds.
 
 (** src/uint/mul_mod.rs:62-65, src/uint/boxed/mul_mod.rs:59-62 (finding F2, repaired): `(carry + 1) * c` is computed in
     the wide word; the model of the repaired code has no trap, in either profile and for any multiplication routine:
